@@ -439,12 +439,13 @@ pub fn generate_query_iter_destroy(
                     let mut closure = |#(#attrs #arg: &#maybe_mut #Type),*| #body;
 
                     let archetype = #get_archetype;
-                    let version = archetype.version();
                     let len = archetype.len();
 
                     // Iterate in reverse order to still visit each entity once.
                     // Note: This assumes that we remove entities by swapping.
                     for idx in (0..len).rev() {
+                        // The version changes whenever this loop destroys an entity.
+                        let version = archetype.version();
                         let slices = #get_slices;
                         match closure(#(#attrs #bind),*).into() {
                             EcsStepDestroy::Continue => {
